@@ -117,6 +117,8 @@ func (h *logRec) WithGroup(string) slog.Handler      { return h }
 // recorder of user-function calls and gates
 type calls struct {
 	mu     sync.Mutex
+	start  time.Time
+	at     []int // time of each call, in ticks since start (virtual under synctest)
 	seen   []int
 	gated  bool
 	gates  map[int]chan struct{}
@@ -126,6 +128,7 @@ type calls struct {
 func (c *calls) enter(x int) {
 	c.mu.Lock()
 	c.seen = append(c.seen, x)
+	c.at = append(c.at, int(time.Since(c.start)/tick))
 	var g chan struct{}
 	if c.gated {
 		g = make(chan struct{})
